@@ -304,6 +304,7 @@ func stdHistory(rng *hlib.Rand, d *cdrv.Driver, c *stdCodec, ms []*methodInfo, s
 	haveDst, pixOK := false, false
 	var sigb strings.Builder
 	cfgDone, metaPending := false, false
+	redirected := false // bmp answered "@I/O redirect": a state the document does not describe
 	for i, x := range items {
 		tk := toks[slots[i].item]
 		name := x.text
@@ -363,6 +364,7 @@ func stdHistory(rng *hlib.Rand, d *cdrv.Driver, c *stdCodec, ms []*methodInfo, s
 			st.onInit(status)
 			if status == "ok" {
 				cfgDone, metaPending = false, false
+				redirected = false
 			}
 			if status != "ok" {
 				h.nontriv = true
@@ -491,7 +493,7 @@ func stdHistory(rng *hlib.Rand, d *cdrv.Driver, c *stdCodec, ms []*methodInfo, s
 			}
 			h.count(fmt.Sprintf("cseq:%s:%s:%02x->%s", class, meth, csBefore, cls))
 			// the document's rules, from the history of answers alone
-			if !resumed && !otherSuspended {
+			if !resumed && !otherSuspended && !redirected {
 				out := false
 				switch meth {
 				case "dic":
@@ -506,7 +508,8 @@ func stdHistory(rng *hlib.Rand, d *cdrv.Driver, c *stdCodec, ms []*methodInfo, s
 				if out && cls != "bcs" {
 					key := "callseq:" + c.name + ":" + meth + "-out-of-order-not-rejected"
 					if meth == "tmm" && status == "#base:_no_more_information" && c.name != "gif" && c.name != "png" {
-						// rejected (an error, the object is disabled), but not with the status the document names
+						// rejected (an error, the object is disabled), but not with the status the document names:
+						// the finding repaired by fixes/C08-tmm-bad-call-sequence.patch (KNOWN_FINDINGS.txt: fixed)
 						key = "callseq:tmm-without-metadata:no-more-information"
 					}
 					h.fails = append(h.fails, hlib.Failure{Key: key, Desc: fmt.Sprintf("%s item %d: %s is out of order here (config decoded: %v, metadata pending: %v) but returned %s", c.name, i, x.text, cfgDone, metaPending, status), Replay: replay})
@@ -517,6 +520,9 @@ func stdHistory(rng *hlib.Rand, d *cdrv.Driver, c *stdCodec, ms []*methodInfo, s
 			}
 		}
 		// track the document-level state
+		if status == "@base:_I/O_redirect" {
+			redirected = true
+		}
 		switch {
 		case cls == "meta":
 			metaPending = true
